@@ -34,6 +34,12 @@
   * `auth_choice_cases`          spelled out: MD5 if offered, else password if offered, else none if offered
   * `auth_choice_all_subsets`    the same, checked by evaluation for all 64 support bytes (32 subsets × reserved bit 3)
   * `auth_choice_asShipped_counterexample`  the pinned order (md5, md2, …) picks MD2 for {MD2, password}
+  * `chosen_type_on_every_datagram`  for EVERY user name / password up to 16 bytes, the EMPTY ones included: Get
+                                 Session Challenge, Activate Session (header and body) and every datagram after it carry
+                                 the type `wanted caps` - a function of the capability byte alone
+  * `anonymous_downgrade_counterexample`  a console that takes "none" when it has neither user name nor password asks
+                                 for none against {none, MD5}; it deviates on exactly the support bytes with none and
+                                 MD5 / password, for the empty credentials only
   * `auth_choice_none`           `get_max_auth_type` returns None exactly when the BMC offers none of the five types
   * `auth_none_offered_no_request`  then (intended `noAuthRaises`) the handshake ends after the capabilities exchange:
                                  no Get Session Challenge — for no type at all —, outcome NotSupportedError, BMC not
@@ -403,6 +409,68 @@ theorem session_datagrams (md5 : List Nat → List Nat) (hmd5 : ∀ x, (md5 x).l
   | [_], [_], [], _, _, h => simp at h
   | [_], [_], _ :: _ :: _, _, _, h => simp at h <;> omega
 
+/-- THE CHOSEN TYPE IS THE TYPE USED - whatever the credentials.  For EVERY user name and password of at most 16
+bytes - the EMPTY user name and the EMPTY password included (`Conforming` asks for nothing but the lengths) - every
+capability byte that offers an implemented type, every privilege level and every `n`: with `a` = the strongest offered
+type the library implements (`wanted`, a function of the capability byte ALONE), Get Session Challenge asks for `a`,
+Activate Session goes out under `a` (header) and asks for `a` (body), and every datagram after it - Set Session
+Privilege Level, the `n` requests, Close Session - carries `a` and the granted id.  In particular a console without
+user name and password does NOT fall back to "none" when the BMC offers none next to MD5 / password
+(`anonymous_downgrade_counterexample`). -/
+theorem chosen_type_on_every_datagram (md5 : List Nat → List Nat) (hmd5 : ∀ x, (md5 x).length = 16)
+    (b : BmcCfg) (cfg : Cfg) (su : Setup b cfg) (c0 : Client) (hcp : c0.s.pw = cfg.pw) (hfr : Fresh cfg c0)
+    (n : Nat) :
+    ∃ a d1 d2 d3 ds, wanted b.caps = some a ∧
+      (lifecycle md5 (peer md5 b) cfg n init c0).sent.map Prod.snd = pingD :: d1 :: d2 :: d3 :: ds ∧
+      Carries d2 57 (a :: pad16 cfg.user) ∧
+      (∃ p, parseLan d3 = some p ∧ p.auth = a ∧ p.sid = b.tempSid) ∧
+      Carries d3 58 ([a, cfg.priv] ++ b.challenge ++ leBytes 4 cfg.outSeq) ∧
+      ds.length = n + 2 ∧
+      ∀ d ∈ ds, ∃ p, parseLan d = some p ∧ p.auth = a ∧ p.sid = b.sid := by
+  obtain ⟨a, hs, ds1, ds2, ds3, ds4, dsr, dsc, ha, hh, h1, _, _, _, _, h6, h7, h8, _, _⟩ :=
+    lifecycle_within_budget md5 hmd5 b cfg su (peer md5 b) id (fun _ => false) relay_self 0 (Nat.zero_le _) n init c0
+      rfl rfl (fun _ => within_self 0 _ _) hcp hfr
+  have l1 := hh.len1; have l2 := hh.len2; have l3 := hh.len3; have l4 := hh.len4
+  have hall : ∀ d ∈ ds4 ++ dsr ++ dsc, ∃ p, parseLan d = some p ∧ p.auth = a ∧ p.sid = b.sid := by
+    intro d hd
+    obtain ⟨i, hi, rfl⟩ := List.mem_iff_getElem.mp hd
+    obtain ⟨p, hp, hpa, hps, _, _⟩ := h6.get i hi
+    exact ⟨p, hp, hpa, hps⟩
+  match ds1, ds2, ds3, l1, l2, l3 with
+  | [d1], [d2], [d3], _, _, _ =>
+    refine ⟨a, d1, d2, d3, ds4 ++ dsr ++ dsc, ha, ?_, (hh.challenge d2 (by simp)).2, ?_, (hh.activate d3 (by simp)).2,
+      by simp only [List.length_append]; omega, hall⟩
+    · rw [h1, hh.sent]
+      simp [tagAll, List.map_map, Function.comp_def]
+    · obtain ⟨p, hp, hpa, hps, _, _⟩ := (hh.activate d3 (by simp)).1
+      exact ⟨p, hp, hpa, hps⟩
+  | [], _, _, h, _, _ => simp at h
+  | _ :: _ :: _, _, _, h, _, _ => simp at h <;> omega
+  | [_], [], _, _, h, _ => simp at h
+  | [_], _ :: _ :: _, _, _, h, _ => simp at h <;> omega
+  | [_], [_], [], _, _, h => simp at h
+  | [_], [_], _ :: _ :: _, _, _, h => simp at h <;> omega
+
+/-- the choice of a console that takes "none" as soon as it has neither user name nor password ("anonymous login")
+and the BMC offers none - and `get_max_auth_type` otherwise -/
+def chooseAnonymous (pref : List Nat) (support : Nat) (user pw : List Nat) : Option Nat :=
+  if user = [] ∧ pw = [] ∧ offered support 0 = true then some 0 else chooseAuth pref support
+
+/-- COUNTER-EXAMPLE for such a console: against a BMC offering {none, MD5} it asks for "none" although MD5 is offered
+and implemented - a silent downgrade to an unauthenticated session; and for the empty credentials it deviates from
+`get_max_auth_type` (= the demanded type there, `auth_choice`) on EXACTLY the support bytes that offer none together with MD5 or password (24 of the 64; all the
+generator of harness/props/c06.py plays with empty credentials), on no other and for no other credentials. -/
+theorem anonymous_downgrade_counterexample :
+    chooseAnonymous authPreference 0x05 [] [] = some 0 ∧ wanted 0x05 = some 2 ∧
+    (List.range 64).all (fun caps =>
+      (chooseAnonymous authPreference caps [] [] != chooseAuth authPreference caps) ==
+        (offered caps 0 && (offered caps 2 || offered caps 4))) = true ∧
+    (∀ caps user pw, (user ≠ [] ∨ pw ≠ []) → chooseAnonymous authPreference caps user pw = chooseAuth authPreference caps) := by
+  refine ⟨by decide, by decide, by decide, ?_⟩
+  intro caps user pw h
+  unfold chooseAnonymous
+  rcases h with h | h <;> simp [h]
+
 theorem close_names_sid (md5 : List Nat → List Nat) (hmd5 : ∀ x, (md5 x).length = 16)
     (b : BmcCfg) (cfg : Cfg) (su : Setup b cfg) (c0 : Client) (hcp : c0.s.pw = cfg.pw) (hfr : Fresh cfg c0)
     (n : Nat) :
@@ -674,6 +742,23 @@ example : BoundedLoss (fun i => i == 5 || i == 6 || i == 9) 2 := by
     · by_cases h9 : i = 9
       · exact ⟨1, by omega, by subst h9; decide⟩
       · exact ⟨0, by omega, by simp [h, h6, h9]⟩
+
+/-- ANONYMOUS LOGIN: a BMC with the null user (empty name) and an empty password that offers none next to MD5, and
+a console configured with the empty user name and the empty password -/
+def anonBmc : BmcCfg := { demoBmc with caps := 0x05, user := [], pw := [] }
+def anonCfg : Cfg := { demoCfg with user := [], pw := [] }
+
+example : Setup anonBmc anonCfg :=
+  ⟨⟨rfl, rfl, rfl, by decide, by decide, by decide, by decide, by decide, by decide, by decide, by decide, by decide, rfl⟩,
+   rfl, Or.inl (by decide)⟩
+example : (Client.fresh anonCfg.pw).s.pw = anonCfg.pw ∧ Fresh anonCfg (Client.fresh anonCfg.pw) := ⟨rfl, Or.inl rfl⟩
+example : wanted anonBmc.caps = some 2 := by decide
+/-- … evaluated: the session opens, and every datagram from Activate Session on is sent under MD5 (type 2) -/
+example :
+    let r := lifecycle toyDigest (peer toyDigest anonBmc) anonCfg 1 init (Client.fresh anonCfg.pw)
+    r.outcome = .ok [] ∧ r.peer.bad = none ∧
+      ((r.sent.drop 3).map fun x => (parseLan x.2).map (·.auth)) = [some 2, some 2, some 2, some 2] := by
+  decide
 
 /-- a BMC that offers no authentication type at all -/
 def noAuthBmc : BmcCfg := { demoBmc with caps := 0 }
